@@ -313,7 +313,13 @@ func runInBubble(spec *RunSpec, res *RunResult) {
 			var wg sync.WaitGroup
 			scripts := spec.Clients
 			if inc > 0 {
-				scripts = recoveryClients(spec)
+				// wait for, then read, every plan that made it into the store
+				scripts = nil
+				for i := range spec.Plans {
+					if c.id(i) != uuid.Nil {
+						scripts = append(scripts, []ClientOp{{Op: "wait", Plan: i}})
+					}
+				}
 			}
 			for ci, ops := range scripts {
 				wg.Add(1)
@@ -426,16 +432,6 @@ func lastUpdateOf(p *PlanSnap) int64 {
 	return last
 }
 
-// recoveryClients is what runs against a restarted incarnation: wait for every
-// plan, then read it.
-func recoveryClients(spec *RunSpec) [][]ClientOp {
-	var out [][]ClientOp
-	for i := range spec.Plans {
-		out = append(out, []ClientOp{{Op: "wait", Plan: i}})
-	}
-	return out
-}
-
 func (c *controller) runClient(ws *coercion.Workstream, gen, ci int, ops []ClientOp) {
 	w := c.w
 	ctx := WithClient(context.Background(), ci)
@@ -468,7 +464,7 @@ func (c *controller) clientOp(ctx context.Context, ws *coercion.Workstream, gen,
 		}
 		select {
 		case <-c.submitted[op.Plan]:
-		case <-time.After(simBudget(c.spec)):
+		case <-time.After(simBudget(c.spec) / 4):
 			return false
 		}
 		id = c.id(op.Plan)
